@@ -37,7 +37,7 @@ def thresholds(tier):
        "parameterisations": 300, "hashed_module_names": 20, "full_names_checked": 150, "instance_statements_checked": 120, "multi_unit_texts_compared": 100, "duplicate_module_probes": 8, "retranslations_compared": 8, "struct_name_probes": 20, "struct_name_probe_controls_translated": 2, "explicit_file_name_probes": 12, "explicit_file_name_probe_controls_clean": 2, "duplicate_module_probe_controls_clean": 4, "reserved_word_probes": 1500, "reserved_word_probe_controls_translated": 100}
   if tier == "thorough":
     t = {k: v * 8 for k, v in t.items()}
-    t["multi_unit_texts_compared"] = 100; t["duplicate_module_probes"] = 6; t["retranslations_compared"] = 8; t["struct_name_probes"] = 20; t["struct_name_probe_controls_translated"] = 2; t["duplicate_module_probe_controls_clean"] = 3; t["reserved_word_probes"] = 1500; t["reserved_word_probe_controls_translated"] = 100       # same size in both tiers
+    t["multi_unit_texts_compared"] = 100; t["explicit_file_name_probes"] = 12; t["explicit_file_name_probe_controls_clean"] = 2; t["duplicate_module_probes"] = 8; t["retranslations_compared"] = 8; t["struct_name_probes"] = 20; t["struct_name_probe_controls_translated"] = 2; t["duplicate_module_probe_controls_clean"] = 4; t["reserved_word_probes"] = 1500; t["reserved_word_probe_controls_translated"] = 100       # same size in both tiers
   return t
 
 
